@@ -169,9 +169,10 @@ class Ctx:
                 results = []
                 t_start = time.time()
                 for i, a_ in enumerate(asyncs):
-                    remaining = max(1.0, limit - (time.time() - t_start)) if i >= procs else limit
+                    # the first `procs` units start at once: one common deadline; later ones get a fresh budget
+                    remaining = (t_start + limit - time.time()) if i < procs else limit
                     try:
-                        results.append(a_.get(timeout=max(remaining, 5.0) if i < procs else limit))
+                        results.append(a_.get(timeout=max(remaining, 2.0)))
                     except mp.TimeoutError:
                         nm = self._pending_units[i][0]
                         results.append({"obls": [], "units": [{"unit": nm, "status": "undecided", "reason": f"obligation generation exceeded {limit}s"}],
